@@ -2,7 +2,7 @@
 
 use super::common::*;
 use crate::engine::*;
-use crate::instr::{calls_to_string, Call, Hi, Lo, Nr, Rec, Reentrant, SharedStart, Win};
+use crate::instr::{calls_to_string, Call, Hi, Lo, Nr, OffsetView, Rec, Reentrant, SharedStart, Win};
 use crate::oracles::*;
 use crate::spaces::*;
 use serde_json::{json, Value};
@@ -165,6 +165,23 @@ pub fn check_pair(alg: Algorithm, old: &[u8], new: &[u8]) -> Result<PairOutcome,
         })?;
         runs += 3;
         transitions += 3 * got.len() as u64;
+        // ranges that sit far out in the index space (offset lookups): the stream is the base
+        // stream shifted by the range starts, and nothing may depend on the magnitude of the
+        // indices (memory, overflow)
+        for &(so, sn) in [(1usize << 40, 7usize), (3, (1usize << 59) + 1), (usize::MAX / 2, usize::MAX / 2 + 11), (usize::MAX - n, usize::MAX - m)].iter() {
+            let vo = OffsetView { data: old, base: so };
+            let vn = OffsetView { data: new, base: sn };
+            let got = raw_stream(alg, 0, &vo, so..so + n, &vn, sn..sn + m)
+                .map_err(|e| format!("ranges old {:?} new {:?} of offset lookups: {}", so..so + n, sn..sn + m, e))?;
+            let want = shifted(&base, so, sn);
+            if got != want {
+                return Err(format!(
+                    "ranges old {:?} new {:?} of offset lookups: stream [{}] differs from the stream on the extracted slices shifted by the range starts [{}]",
+                    so..so + n, sn..sn + m, calls_to_string(&got), calls_to_string(&want)
+                ));
+            }
+            runs += 1;
+        }
         // unsized items that all start at one address (equal exactly when equally long)
         let shared = [7u8; 16];
         let so = SharedStart::new(&shared, old);
@@ -237,13 +254,94 @@ pub fn scopes(tier: Tier) -> Vec<Scope> {
     }
 }
 
+// ---- canary in a child process ----------------------------------------------------------------
+// A diff over ranges far out in the index space can, on a broken tree, ask the allocator for an
+// absurd amount of memory: that ABORTS the process and cannot be caught.  The same probe as in
+// `check_pair` therefore runs first in a child process; a child that dies is a reported violation,
+// not a dead harness.
+
+const PROBE_INPUTS: [(&[u8], &[u8]); 6] = [
+    (&[0, 1, 2, 3], &[0, 1, 2, 3]),
+    (&[0, 1, 2, 3, 4, 5, 6, 7], &[0, 1, 9, 3, 4, 5, 6, 7]),
+    (&[0, 1, 0, 2], &[2, 0, 1]),
+    (&[], &[0, 1]),
+    (&[5], &[]),
+    (&[0, 1, 2, 3, 4, 5, 6, 7], &[7, 6, 5, 4, 3, 2, 1, 0]),
+];
+
+/// body of the child: exit code 0 = held, 3 = mismatch (complaint on stdout)
+pub fn offset_probe_child() -> i32 {
+    for (old, new) in PROBE_INPUTS.iter() {
+        let (n, m) = (old.len(), new.len());
+        for &alg in ALGS.iter() {
+            let base = match raw_stream(alg, 0, *old, 0..n, *new, 0..m) {
+                Ok(b) => b,
+                Err(e) => {
+                    println!("probe: {} on {:?} / {:?}: {}", alg_name(alg), old, new, e);
+                    return 3;
+                }
+            };
+            for &(so, sn) in [(1usize << 40, 7usize), (3, (1usize << 59) + 1), (usize::MAX / 2, usize::MAX / 2 + 11), (usize::MAX - n, usize::MAX - m)].iter() {
+                let vo = OffsetView { data: *old, base: so };
+                let vn = OffsetView { data: *new, base: sn };
+                match raw_stream(alg, 0, &vo, so..so + n, &vn, sn..sn + m) {
+                    Ok(got) if got == shifted(&base, so, sn) => {}
+                    Ok(got) => {
+                        println!(
+                            "probe: {} on ranges old {:?} new {:?} of offset lookups over {:?} / {:?}: stream [{}] differs from the stream on the extracted slices shifted by the range starts",
+                            alg_name(alg), so..so + n, sn..sn + m, old, new, calls_to_string(&got)
+                        );
+                        return 3;
+                    }
+                    Err(e) => {
+                        println!("probe: {} on ranges old {:?} new {:?} of offset lookups over {:?} / {:?}: {}", alg_name(alg), so..so + n, sn..sn + m, old, new, e);
+                        return 3;
+                    }
+                }
+            }
+        }
+    }
+    0
+}
+
+/// parent side: run the probe in a child process of this binary
+pub fn offset_probe() -> Result<(), String> {
+    let exe = std::env::current_exe().map_err(|e| format!("cannot find the harness binary: {}", e))?;
+    let out = std::process::Command::new(exe)
+        .args(["C01", "--probe-offsets"])
+        .output()
+        .map_err(|e| format!("cannot start the probe child: {}", e))?;
+    let stdout = String::from_utf8_lossy(&out.stdout);
+    let stderr = String::from_utf8_lossy(&out.stderr);
+    match out.status.code() {
+        Some(0) => Ok(()),
+        Some(3) => Err(stdout.lines().last().unwrap_or("probe failed").to_string()),
+        other => Err(format!(
+            "diffing ranges far out in the index space (offset lookups with starts 2^40, 2^59, usize::MAX/2, usize::MAX - len; 4-8 items per side) KILLED the process ({}): {}",
+            match other {
+                Some(c) => format!("exit code {}", c),
+                None => "terminated by a signal / abort".to_string(),
+            },
+            stderr.lines().rev().take(3).collect::<Vec<_>>().join(" | ")
+        )),
+    }
+}
+
 pub fn run(cfg: &RunCfg) -> CheckReport {
+    if let Err(e) = offset_probe() {
+        let mut rep = CheckReport::new("exploration", "canary: ranges far out in the index space, diffed in a child process");
+        let mut acc = Acc::default();
+        acc.violation(|| (json!({"offset_probe": true}), e));
+        rep.part("offset-probe", json!({}), Explored { acc, shards_total: 1, shards_done: 0, capped: false, wall_s: 0.0 });
+        return rep;
+    }
     let mut rep = CheckReport::new(
         "exploration",
         "every (algorithm, old, new) with the pair drawn from the listed scopes (P(k,n) = all ordered pairs of sequences over k symbols of length <= n; R(L) = every equality pattern of total length <= L cut at every position; later scopes skip pairs of earlier ones, so cases are distinct by construction); each case runs 6 full-range entry points plus 8 sub-range embeddings (4 offset pairs x {window Index that panics outside the range, adversarially padded slices}). Non-trivial: both sides non-empty, sequences differ, and the stream contains at least one equal and one change call.",
     );
     rep.assume("oracle: cursor automaton + differential comparison with the run on the extracted slices; element type u8");
-    rep.assume("each case additionally runs three generic instantiations: old in a VecDeque whose storage wraps around against new in a Vec; old items of type Lo(u32) against new items of type Hi(u64) (equal across the types, different hashes); one sequence object on both sides with two ranges into it; unsized items that all start at one address; a hook that re-enters the library (nested diffs with all three algorithms) from inside every callback; for Myers and LCS items with a non-reflexive PartialEq on one object with equal and different ranges");
+    rep.assume("before the exploration a canary diffs ranges far out in the index space in a CHILD process (an absurd allocation aborts the process and cannot be caught); a child that dies is reported as a violation");
+    rep.assume("each case additionally runs three generic instantiations: old in a VecDeque whose storage wraps around against new in a Vec; old items of type Lo(u32) against new items of type Hi(u64) (equal across the types, different hashes); one sequence object on both sides with two ranges into it; ranges far out in the index space through offset lookups (starts 2^40, 2^59, usize::MAX/2, usize::MAX - len); unsized items that all start at one address; a hook that re-enters the library (nested diffs with all three algorithms) from inside every callback; for Myers and LCS items with a non-reflexive PartialEq on one object with equal and different ranges");
     let space = PairSpace::new(scopes(cfg.tier));
     let ex = explore(cfg, space.nshards(), |shard, acc| {
         space.for_each(shard, |old, new| {
@@ -324,6 +422,9 @@ pub fn check_large(alg: Algorithm, inp: &super::large::LargeInput) -> Result<(bo
 }
 
 pub fn replay(case: &Value) -> Result<String, String> {
+    if case.get("offset_probe").is_some() {
+        return offset_probe().map(|_| "holds; the probe child exited cleanly".to_string());
+    }
     if let Some(r) = super::large::resolve(case) {
         let (alg, inp) = r?;
         return check_large(alg, &inp).map(|o| format!("holds; fingerprint {:x}", o.2));
